@@ -266,6 +266,8 @@ struct World {
     c: Case,
     /// upstream sockets of flows sozu has provably torn down: they must be closed (checked by binding the port)
     to_probe: Vec<(usize, SocketAddr)>,
+    /// next unused spare client socket (index into net.socks)
+    spare_next: usize,
 }
 
 const CLUSTER: &str = "udpc";
@@ -753,9 +755,11 @@ impl World {
                     self.c.fail(class, format!("flow {}: sent {} datagrams (sizes {:?}), backend saw {} (sizes {:?})", f.inc, want.len(), want.iter().map(|x| x.len()).collect::<Vec<_>>(), have.len(), have.iter().map(|x| x.len()).collect::<Vec<_>>()));
                 }
             }
-            let fl = &mut self.flows[fi];
-            fl.nsent += want.len() as u32;
-            fl.deadline = t + Duration::from_secs(fl.k.fto);
+            if !want.is_empty() {
+                let fl = &mut self.flows[fi];
+                fl.nsent += want.len() as u32;
+                fl.deadline = t + Duration::from_secs(fl.k.fto);
+            }
         }
         if !complete {
             self.c.tag("udp-loss-in-burst");
@@ -763,6 +767,164 @@ impl World {
             self.c.tainted = true;
         } else {
             self.c.tag("burst-in-order");
+        }
+    }
+
+
+    /// "Same drain pass": datagrams of established flows and of brand-new clients written back to back from
+    /// this one thread before anything is read, so that sozu's edge-triggered `recv_from` loop sees a
+    /// new-flow datagram followed by datagrams of other, established flows within one pass. Every datagram of
+    /// an established flow must still travel on that flow's own upstream socket, every new client gets a
+    /// socket of its own, per-flow order holds, and afterwards each backend reply reaches only its own client.
+    fn mixed_burst(&mut self, rng: &mut Rng) {
+        self.drain_unexpected("before mixed burst");
+        let t = Instant::now();
+        let (live, maybe) = self.sweep(t);
+        if self.c.tainted {
+            return;
+        }
+        let usable: Vec<usize> = (0..self.flows.len())
+            .filter(|&i| {
+                let f = &self.flows[i];
+                !f.closed && status(f, t) == St::Alive && f.k.requests == 0 && self.akey(&f.client) == f.key
+            })
+            .collect();
+        let room = self.k.cap.saturating_sub(live + maybe);
+        let spares_left = self.net.nclients - self.spare_next;
+        let rounds = (rng.range(2, 6) as usize).min(room).min(spares_left);
+        if usable.is_empty() || rounds == 0 || self.k.requests != 0 {
+            return;
+        }
+        let now_ms = self.ms(t);
+        // plan: (Some(flow) | None = new client, client socket index, payload)
+        let mut plan: Vec<(Option<usize>, usize, Vec<u8>)> = vec![];
+        let mk = |w: &mut World, ci: usize, rng: &mut Rng| -> Vec<u8> {
+            w.seq += 1;
+            let len = rng.range(8, w.k.max_rx.min(600) as u64) as usize;
+            make_payload(ci, w.seq, len)
+        };
+        for _ in 0..rounds {
+            let fa = *rng.pick(&usable);
+            let ca = self.net.socks.iter().position(|s| s.addr == self.flows[fa].client).unwrap();
+            let p = mk(self, ca, rng);
+            plan.push((Some(fa), ca, p));
+            let cb = self.spare_next;
+            self.spare_next += 1;
+            let p = mk(self, cb, rng);
+            plan.push((None, cb, p));
+            for _ in 0..rng.range(1, 2) {
+                let fa = *rng.pick(&usable);
+                let ca = self.net.socks.iter().position(|s| s.addr == self.flows[fa].client).unwrap();
+                let p = mk(self, ca, rng);
+                plan.push((Some(fa), ca, p));
+            }
+        }
+        for (_, ci, p) in &plan {
+            let _ = self.net.socks[*ci].s.send_to(p, self.front);
+        }
+        self.c.log.push(format!("t={} same-pass burst: {} datagrams, {} brand-new clients interleaved with {} established flows", now_ms, plan.len(), rounds, usable.len()));
+        self.c.tag("same-pass-burst");
+        let got = self.net.pump(plan.len(), RT);
+        // attribute every datagram seen at a backend to the datagram sent (payloads are unique suffixes)
+        let mut seen: Vec<Option<(usize, SocketAddr, Vec<u8>)>> = vec![None; plan.len()]; // (backend, upstream, bytes)
+        let mut arrival: Vec<usize> = vec![];
+        for d in &got {
+            if d.sock < self.net.nclients {
+                self.unexpected(d, "during a same-pass burst");
+                continue;
+            }
+            match plan.iter().position(|(_, _, p)| d.data.ends_with(p)) {
+                Some(i) if seen[i].is_none() => {
+                    seen[i] = Some((d.sock - self.net.nclients, d.from, d.data.clone()));
+                    arrival.push(i);
+                }
+                Some(i) => self.c.fail("burst-datagram-duplicated", format!("datagram {i} of the same-pass burst arrived twice")),
+                None => self.unexpected(d, "during a same-pass burst"),
+            }
+        }
+        if seen.iter().any(|x| x.is_none()) {
+            // loss (or a shed we did not predict): do not judge
+            self.c.tag("udp-loss-in-burst");
+            self.c.trace_ok = false;
+            self.c.tainted = true;
+            return;
+        }
+        self.c.tr(format!("to {now_ms}"));
+        let mut new_socks: Vec<(usize, SocketAddr)> = vec![];
+        for (i, (owner, ci, p)) in plan.iter().enumerate() {
+            let (bidx, from, data) = seen[i].clone().unwrap();
+            let baddr = self.backend_sock(bidx).addr;
+            let client = self.net.socks[*ci].addr;
+            self.c.tr(format!("c {} {} {}", addr_str(&client), hex(p), now_ms));
+            match owner {
+                Some(fi) => {
+                    let f = self.flows[*fi].clone();
+                    if f.bidx != bidx || f.up != from {
+                        let class = if f.bidx != bidx { "sticky-backend-changed-mid-flow" } else { "sticky-upstream-socket-changed-mid-flow" };
+                        let thief = self.flows.iter().find(|g| !g.closed && g.bidx == bidx && g.up == from).map(|g| g.client.to_string()).unwrap_or_else(|| "a socket opened in the same pass".into());
+                        self.c.fail(class, format!("same-pass burst: datagram {i} of established flow {} ({} -> backend {} via {}) arrived at backend {} via {} (socket of {})", f.inc, f.client, f.bidx, f.up, bidx, from, thief));
+                        self.c.tainted = true;
+                        return;
+                    }
+                    let want_pp = f.k.pp && (f.k.every || f.nsent == 0);
+                    let mut expect = if want_pp { pp2(&f.client, &baddr) } else { vec![] };
+                    expect.extend_from_slice(p);
+                    if data != expect {
+                        self.c.fail("datagram-bytes-altered", format!("same-pass burst: flow {} datagram {i}: {} bytes, expected {}", f.inc, data.len(), expect.len()));
+                    }
+                    let fl = &mut self.flows[*fi];
+                    fl.nsent += 1;
+                    fl.deadline = t + Duration::from_secs(fl.k.fto);
+                    let inc = fl.inc;
+                    self.c.obs(format!("fwd inc{} b{} {}", inc, bidx, hex(&data)));
+                }
+                None => {
+                    if let Some(g) = self.flows.iter().find(|g| !g.closed && g.bidx == bidx && g.up == from) {
+                        self.c.fail("isolation-two-clients-share-an-upstream-socket", format!("same-pass burst: new client {} arrived via {} which belongs to the live flow of {}", client, from, g.client));
+                        self.c.tainted = true;
+                        return;
+                    }
+                    if new_socks.contains(&(bidx, from)) {
+                        self.c.fail("isolation-two-clients-share-an-upstream-socket", format!("same-pass burst: two new clients share {}", from));
+                        self.c.tainted = true;
+                        return;
+                    }
+                    new_socks.push((bidx, from));
+                    if !self.backends_on[bidx] {
+                        self.c.fail("new-flow-on-removed-backend", format!("backend {bidx}"));
+                    }
+                    let mut expect = if self.k.pp { pp2(&client, &baddr) } else { vec![] };
+                    expect.extend_from_slice(p);
+                    if data != expect {
+                        let class = if self.k.pp && data == *p { "proxy-header-missing" } else { "datagram-bytes-altered" };
+                        self.c.fail(class, format!("same-pass burst: new client {}: {} bytes, expected {}", client, data.len(), expect.len()));
+                    }
+                    let key = self.akey(&client);
+                    let inc = self.flows.len();
+                    self.ups_seen.push((bidx, from));
+                    self.flows.push(MFlow { inc, key, client, bidx, up: from, k: self.k.clone(), nsent: 1, nrecv: 0, deadline: t + Duration::from_secs(self.k.fto), closed: false, idle_closed: false, verified_closed: false });
+                    self.c.tag("flow-created");
+                    self.c.tr(format!("rr b{} {} {}", bidx, addr_str(&baddr), now_ms));
+                    self.c.obs(format!("fwd inc{} b{} {}", inc, bidx, hex(&data)));
+                }
+            }
+        }
+        // per-flow order on the wire: datagrams of one client arrive in the order they were sent
+        for ci in plan.iter().map(|x| x.1).collect::<std::collections::BTreeSet<_>>() {
+            let sent: Vec<usize> = (0..plan.len()).filter(|&i| plan[i].1 == ci).collect();
+            let arrived: Vec<usize> = arrival.iter().copied().filter(|&i| plan[i].1 == ci).collect();
+            if sent != arrived {
+                self.c.fail("burst-datagrams-reordered-within-flow", format!("same-pass burst: client {} sent {:?}, arrived {:?}", self.net.socks[ci].addr, sent, arrived));
+            }
+        }
+        // isolation on the way back: every backend answers on every socket it saw in this burst
+        let involved: Vec<usize> = (0..self.flows.len()).filter(|&i| !self.flows[i].closed && (new_socks.contains(&(self.flows[i].bidx, self.flows[i].up)) || usable.contains(&i))).collect();
+        for fi in involved {
+            if self.c.tainted || self.c.fails.len() >= 3 {
+                break;
+            }
+            let len = rng.range(4, 200) as usize;
+            self.reply(fi, len);
         }
     }
 
@@ -874,6 +1036,17 @@ fn run_case(seed: u64, case: u64, thorough: bool, driver: &str) -> (Case, Value)
             }
         }
     }
+    let nmain = socks.len();
+    // brand-new client sources for the "same drain pass" bursts: one fresh source IP each (a new key in both modes)
+    for i in 0..14u8 {
+        match bind(Ipv4Addr::new(127, 0, 0, 20 + i)) {
+            Ok(s) => socks.push(s),
+            Err(e) => {
+                c.fail("harness-setup", format!("bind spare client: {e}"));
+                return (c, desc);
+            }
+        }
+    }
     let nclients = socks.len();
     for _ in 0..nb + 1 {
         // one spare backend to be added mid-run; per-case loopback address: no other case's (or process's)
@@ -914,6 +1087,7 @@ fn run_case(seed: u64, case: u64, thorough: bool, driver: &str) -> (Case, Value)
         t0: Instant::now(),
         c,
         to_probe: vec![],
+        spare_next: nmain,
     };
     let setup = (|| -> RigResult<()> {
         world.w.add_cluster(world.cluster_msg())?;
@@ -943,7 +1117,7 @@ fn run_case(seed: u64, case: u64, thorough: bool, driver: &str) -> (Case, Value)
         let r = rng.below(100);
         let live: Vec<usize> = (0..world.flows.len()).filter(|&i| !world.flows[i].closed).collect();
         if r < 42 || world.flows.is_empty() {
-            let ci = rng.below(nclients as u64) as usize;
+            let ci = rng.below(nmain as u64) as usize;
             let mx = world.k.max_rx;
             let len = match rng.below(16) {
                 0 => 0,
@@ -966,9 +1140,11 @@ fn run_case(seed: u64, case: u64, thorough: bool, driver: &str) -> (Case, Value)
                 _ => rng.range(4, mx.min(1200) as u64) as usize,
             };
             world.reply(fi, len);
-        } else if r < 72 {
+        } else if r < 68 {
             world.burst(&mut rng);
-        } else if r < 80 {
+        } else if r < 74 {
+            world.mixed_burst(&mut rng);
+        } else if r < 81 {
             world.idle(rng.range(20, 300));
         } else if r < 88 {
             // idle clearly past every live deadline that is near (only short timeouts are waited for)
